@@ -971,7 +971,10 @@ class QvmCpu:
                       expected=a.type,
                       got=b.type)
 
-        result = a.value // b.value
+        # integer division truncates toward zero
+        result = abs(a.value) // abs(b.value)
+        if (a.value < 0) != (b.value < 0):
+            result = -result
         self.push(a.type, result)
 
     def _exec_ijmp(self):
@@ -1140,7 +1143,11 @@ class QvmCpu:
                       expected=a.type,
                       got=b.type)
 
-        result = a.value % b.value
+        # the remainder has the sign of the dividend
+        quotient = abs(a.value) // abs(b.value)
+        if (a.value < 0) != (b.value < 0):
+            quotient = -quotient
+        result = a.value - b.value * quotient
         self.push(a.type, result)
 
     def _exec_mul(self):
